@@ -51,21 +51,21 @@ func (o Op) String() string {
 	case "set":
 		switch o.V {
 		case "own":
-			return fmt.Sprintf("p%d u%d.Set%s(<its own current value>+%q)", o.P, o.H, setterNames[o.W%len(setterNames)], string(o.A))
+			return fmt.Sprintf("p%d u%d.Set%s(<its own current value>+%s)", o.P, o.H, setterNames[o.W%len(setterNames)], q(string(o.A)))
 		case "peer":
-			return fmt.Sprintf("p%d u%d.Set%s(<current value of u%d>+%q)", o.P, o.H, setterNames[o.W%len(setterNames)], o.S, string(o.A))
+			return fmt.Sprintf("p%d u%d.Set%s(<current value of u%d>+%s)", o.P, o.H, setterNames[o.W%len(setterNames)], o.S, q(string(o.A)))
 		}
-		return fmt.Sprintf("p%d u%d.Set%s(%q)", o.P, o.H, setterNames[o.W%len(setterNames)], string(o.A))
+		return fmt.Sprintf("p%d u%d.Set%s(%s)", o.P, o.H, setterNames[o.W%len(setterNames)], q(string(o.A)))
 	case "parse":
 		if o.W == 0 {
-			return fmt.Sprintf("p%d u%d=Parse(%q)", o.P, o.D, string(o.A))
+			return fmt.Sprintf("p%d u%d=Parse(%s)", o.P, o.D, q(string(o.A)))
 		}
-		return fmt.Sprintf("p%d u%d=ParseRef(%q,%q)", o.P, o.D, string(o.B), string(o.A))
+		return fmt.Sprintf("p%d u%d=ParseRef(%s,%q)", o.P, o.D, q(string(o.B)), q(string(o.A)))
 	case "resolve":
 		if o.V == "peerhref" {
-			return fmt.Sprintf("p%d u%d=resolve[way%d](u%d,<serialization of u%d>+%q)", o.P, o.D, o.W, o.H, o.S, string(o.A))
+			return fmt.Sprintf("p%d u%d=resolve[way%d](u%d,<serialization of u%d>+%s)", o.P, o.D, o.W, o.H, o.S, q(string(o.A)))
 		}
-		return fmt.Sprintf("p%d u%d=resolve[way%d](u%d,%q)", o.P, o.D, o.W, o.H, string(o.A))
+		return fmt.Sprintf("p%d u%d=resolve[way%d](u%d,%s)", o.P, o.D, o.W, o.H, q(string(o.A)))
 	case "clone":
 		return fmt.Sprintf("p%d u%d=u%d.Clone()", o.P, o.D, o.H)
 	case "getsp":
@@ -76,7 +76,7 @@ func (o Op) String() string {
 		s += fmt.Sprintf(" d%d", o.D)
 	}
 	if o.A != "" || o.B != "" {
-		s += fmt.Sprintf(" (%q,%q)", string(o.A), string(o.B))
+		s += fmt.Sprintf(" (%s,%q)", q(string(o.A)), q(string(o.B)))
 	}
 	if o.W != 0 {
 		s += fmt.Sprintf(" w%d", o.W)
@@ -131,13 +131,15 @@ type Plan struct {
 	Ops  []Op   `json:"ops,omitempty"`
 	Note string `json:"note,omitempty"`
 	// schedsim
-	Parsers  []Config  `json:"parsers,omitempty"`
-	Shared   [][]Op    `json:"shared,omitempty"` // construction history of each shared URL (handle 0 of its own little world)
-	SharedP  []int     `json:"shared_parser,omitempty"`
-	Tasks    [][]Op    `json:"tasks,omitempty"`
-	Schedule []Quantum `json:"schedule,omitempty"`
-	Strategy string    `json:"strategy,omitempty"`
-	FpEvery  bool      `json:"fp_every_switch,omitempty"`
+	Parsers    []Config  `json:"parsers,omitempty"`
+	Shared     [][]Op    `json:"shared,omitempty"` // construction history of each shared URL (handle 0 of its own little world)
+	SharedP    []int     `json:"shared_parser,omitempty"`
+	Tasks      [][]Op    `json:"tasks,omitempty"`
+	Schedule   []Quantum `json:"schedule,omitempty"`
+	Strategy   string    `json:"strategy,omitempty"`
+	Order      string    `json:"order,omitempty"`                     // "" = run-alone reference first; "concurrent-first" = scheduled run first (process-wide state still cold), reference afterwards
+	ParkInCrit bool      `json:"park_in_critical_sections,omitempty"` // allow preemption lexically inside Lock()...Unlock() (risks deadlock, see verifrt.Crit)
+	FpEvery    bool      `json:"fp_every_switch,omitempty"`
 }
 
 // Replay is what is written to /verif/replays/<id>/...json.
